@@ -11,7 +11,12 @@ import ZV.Proofs.C08
   order (`dedupFp` keeps the head and drops later certificates with the same fingerprint;
   `dedupFp_nodup`, `dedupFp_mem_fps`, `dedupFp_sublist` in `ZV.Proofs.C08` characterise it) —
   and that the representation invariant `Inv` (index maps = indices computed from `certs`)
-  holds.  The observers and `findVerifiedParents` are then characterised on every reachable pool.
+  holds.  The observers and `findVerifiedParents` are then characterised on every reachable pool
+  (`observers_refine`: Size / Contains / Covers / Certificates / Subjects of ANY two pool variables, nil ones
+  included, after ANY operation sequence, against the abstract ordered set `oset`).
+  `appendPEM_is_addCerts` shows that the PEM loop (wrong type / headers / unparsable block are skipped, `ok` result)
+  is exactly a sequence of `AddCert` calls, for every pool and every block list; `t1_*` are the T1 facts read
+  from x509/cert_pool.go on every run.
 -/
 namespace ZV.C08
 
@@ -27,12 +32,15 @@ def histOf : Option (List Cert) → List Cert
 /-- the history transformer of one operation (with the same nil-receiver panics as the code). -/
 def histStep (A : Hist) : Op → Res Hist
   | .add r c =>
-    match A r with
-    | none => .panic
-    | some l => .ok (setKey A r (some (l ++ [c])))
+    match c with
+    | none => .panic                      -- AddCert(nil)
+    | some c =>
+      match A r with
+      | none => .panic
+      | some l => .ok (setKey A r (some (l ++ [c])))
   | .pem r bs =>
     match A r with
-    | none => if bs.any Option.isSome then .panic else .ok A
+    | none => if (pemCerts bs).isEmpty then .ok A else .panic
     | some l => .ok (setKey A r (some (l ++ pemCerts bs)))
   | .sum d a b =>
     .ok (setKey A d (some (histOf (A a) ++ histOf (A b))))
@@ -85,11 +93,14 @@ theorem step_agrees (regs : Regs) (A : Hist) (op : Op) (h : AllAgree regs A) :
     (step regs op = .panic ∧ histStep A op = .panic) := by
   cases op with
   | add r c =>
+    cases c with
+    | none => right; simp only [step, addCertOpt, histStep]; exact ⟨trivial, trivial⟩
+    | some c =>
     have hr := h r
     cases hp : regs r with
     | none =>
       cases hl : A r with
-      | none => right; simp only [step, histStep, hp, hl]; exact ⟨trivial, trivial⟩
+      | none => right; simp only [step, addCertOpt, histStep, hp, hl]; exact ⟨trivial, trivial⟩
       | some l => rw [hp, hl] at hr; exact hr.elim
     | some p =>
       cases hl : A r with
@@ -98,7 +109,7 @@ theorem step_agrees (regs : Regs) (A : Hist) (op : Op) (h : AllAgree regs A) :
         rw [hp, hl] at hr
         left
         have a := addCert_spec p c hr.1
-        simp only [step, histStep, hp, hl]
+        simp only [step, addCertOpt, histStep, hp, hl]
         refine ⟨_, _, _, rfl, rfl, agrees_setKey regs A h r _ _ a.2 ?_⟩
         rw [a.1, hr.2, dedupFp_append]; rfl
   | pem r bs =>
@@ -107,10 +118,18 @@ theorem step_agrees (regs : Regs) (A : Hist) (op : Op) (h : AllAgree regs A) :
     | none =>
       cases hl : A r with
       | none =>
-        simp only [step, histStep, hp, hl]
-        by_cases hb : bs.any Option.isSome = true
-        · right; simp only [hb, if_true]; exact ⟨trivial, trivial⟩
-        · left; simp only [hb, Bool.false_eq_true, if_false]; exact ⟨_, _, _, rfl, rfl, h⟩
+        simp only [step, appendCertsFromPEMOpt, histStep, hp, hl, any_accepted]
+        by_cases hb : (pemCerts bs).isEmpty = true
+        · left; simp only [hb, Bool.not_true, Bool.false_eq_true, if_false, if_true]
+          refine ⟨_, _, _, rfl, rfl, ?_⟩
+          intro x
+          unfold setKey
+          by_cases e : x = r
+          · simp only [e, if_true, hl, Agrees]
+          · simp only [e, if_false]; exact h x
+        · right
+          have : (pemCerts bs).isEmpty = false := by simpa using hb
+          simp only [this, Bool.not_false, if_true, Bool.false_eq_true, if_false]; exact ⟨trivial, trivial⟩
       | some l => rw [hp, hl] at hr; exact hr.elim
     | some p =>
       cases hl : A r with
@@ -119,7 +138,7 @@ theorem step_agrees (regs : Regs) (A : Hist) (op : Op) (h : AllAgree regs A) :
         rw [hp, hl] at hr
         left
         have a := appendPEM_spec bs p hr.1
-        simp only [step, histStep, hp, hl]
+        simp only [step, appendCertsFromPEMOpt, histStep, hp, hl]
         refine ⟨_, _, _, rfl, rfl, agrees_setKey regs A h r _ _ a.2.1 ?_⟩
         rw [a.1, hr.2, dedupFp_append]
   | sum d a b =>
@@ -238,9 +257,11 @@ def candidateOf (certs : List Cert) (child : Cert) (x : Cert) : Bool :=
     `findVerifiedParents` does not panic and returns exactly the indices of the pool members
     that are lookup candidates for the child and whose signature check over the child passed;
     in particular only indices of pool members with `chk child member`. -/
-theorem parents_sound (chk : Cert → Cert → Bool) (p : Pool) (h : Inv p) (child : Cert) :
-    ∃ res, findVerifiedParents chk (some p) child = .ok res ∧
-      ∀ i, i ∈ res.parents ↔ ∃ x, p.certs[i]? = some x ∧ candidateOf p.certs child x = true ∧ chk child x = true := by
+theorem parents_sound (chk : Cert → Cert → Bool) (p : Pool) (h : Inv p) (child : Cert) (v0 : Bool) :
+    ∃ res, findVerifiedParents chk (some p) child v0 = .ok res ∧
+      (∀ i, i ∈ res.parents ↔ ∃ x, p.certs[i]? = some x ∧ candidateOf p.certs child x = true ∧ chk child x = true) ∧
+      -- side effect: the child's ValidSignature is set iff a parent was found, and never cleared
+      res.valid = (v0 || !res.parents.isEmpty) := by
   unfold findVerifiedParents
   simp only
   -- the candidate list is an index list computed from certs
@@ -271,9 +292,9 @@ theorem parents_sound (chk : Cert → Cert → Bool) (p : Pool) (h : Inv p) (chi
         constructor
         · rintro ⟨j, x, e, g, q⟩; exact ⟨x, by simpa [e] using g, q⟩
         · rintro ⟨x, g, q⟩; exact ⟨i, x, by simp, g, q⟩
-  obtain ⟨res, e, m⟩ := parentsLoop_spec chk p.certs child _ { parents := [], errCert := none, errNil := true }
+  obtain ⟨res, e, m⟩ := parentsLoop_spec chk p.certs child _ { parents := [], errCert := none, errNil := true, valid := v0 }
     (fun i hi => by obtain ⟨x, hx, _⟩ := (hcand i).mp hi; exact ⟨x, hx⟩)
-  refine ⟨res, e, ?_⟩
+  refine ⟨res, e, ?_, parentsLoop_valid chk p.certs child v0 _ _ res (by simp) e⟩
   intro i
   rw [m i]
   simp only [List.not_mem_nil, false_or]
@@ -286,8 +307,8 @@ theorem parents_sound (chk : Cert → Cert → Bool) (p : Pool) (h : Inv p) (chi
     exact ⟨(hcand i).mpr ⟨x, hx, hc⟩, x, hx, hk⟩
 
 /-- a nil pool has no parents to offer. -/
-theorem parents_nil (chk : Cert → Cert → Bool) (child : Cert) :
-    findVerifiedParents chk none child = .ok { parents := [], errCert := none, errNil := true } := rfl
+theorem parents_nil (chk : Cert → Cert → Bool) (child : Cert) (v0 : Bool) :
+    findVerifiedParents chk none child v0 = .ok { parents := [], errCert := none, errNil := true, valid := v0 } := rfl
 
 /-! ### pool variables hold values: an operation changes only its destination variable
 
@@ -306,22 +327,12 @@ theorem step_frame (regs regs' : Regs) (op : Op) (o : Option Bool) (h : step reg
   cases op with
   | add r c =>
     simp only [step] at h
-    cases hr : regs r with
-    | none => simp [hr] at h
-    | some p =>
-      simp only [hr, Res.ok.injEq, Prod.mk.injEq] at h
-      rw [← h.1]; simp only [setKey, Op.dst] at hx ⊢; simp [hx]
+    split at h <;> simp only [Res.ok.injEq, Prod.mk.injEq, reduceCtorEq] at h
+    rw [← h.1]; simp only [setKey, Op.dst] at hx ⊢; simp [hx]
   | pem r bs =>
     simp only [step] at h
-    cases hr : regs r with
-    | none =>
-      simp only [hr] at h
-      split at h
-      · simp at h
-      · simp only [Res.ok.injEq, Prod.mk.injEq] at h; rw [← h.1]
-    | some p =>
-      simp only [hr, Res.ok.injEq, Prod.mk.injEq] at h
-      rw [← h.1]; simp only [setKey, Op.dst] at hx ⊢; simp [hx]
+    split at h <;> simp only [Res.ok.injEq, Prod.mk.injEq, reduceCtorEq] at h
+    rw [← h.1]; simp only [setKey, Op.dst] at hx ⊢; simp [hx]
   | sum d a b =>
     simp only [step, Res.ok.injEq, Prod.mk.injEq] at h
     rw [← h.1]; simp only [setKey, Op.dst] at hx ⊢; simp [hx]
@@ -349,7 +360,285 @@ theorem run_frame (ops : List Op) (regs regs' : Regs) (outs : List Bool) (h : ru
         rw [← h.1, ih r1 r2 os hr (fun op' hm => hx op' (List.mem_cons_of_mem _ hm))]
         exact step_frame regs r1 op o hs x (hx op (List.mem_cons_self ..))
 
+
+/-! ### AppendCertsFromPEM is a sequence of AddCert calls -/
+
+/-- which blocks pass the two `continue` tests of the loop: exactly the header-less blocks whose type is the
+    literal the source compares with (T1 `pemBlockType`; `t1_pem_constants` pins it to "CERTIFICATE"). -/
+theorem skipped_iff (b : Block) : b.skipped = false ↔ b.typ = "CERTIFICATE" ∧ b.nHeaders = 0 := by
+  unfold Block.skipped
+  have e1 : ZV.Generated.C08.pemBlockType = "CERTIFICATE" := by decide
+  have e2 : ZV.Generated.C08.pemHeaderBound = 0 := by decide
+  rw [e1, e2]
+  simp
+
+/-- a block contributes a certificate iff its type is CERTIFICATE, it has no headers and its bytes parse. -/
+theorem accepted_iff (b : Block) (c : Cert) :
+    b.accepted = some c ↔ b.typ = "CERTIFICATE" ∧ b.nHeaders = 0 ∧ b.parsed = some c := by
+  unfold Block.accepted
+  by_cases hs : b.skipped = true
+  · have : ¬ (b.typ = "CERTIFICATE" ∧ b.nHeaders = 0) := fun h => by
+      have := (skipped_iff b).mpr h; rw [hs] at this; cases this
+    simp only [hs, if_true, reduceCtorEq, false_iff]
+    intro h; exact this ⟨h.1, h.2.1⟩
+  · have hf : b.skipped = false := by simpa using hs
+    have := (skipped_iff b).mp hf
+    simp [hf, this.1, this.2]
+
+/-- THE PEM LOOP, for ALL pools and ALL block lists: `AppendCertsFromPEM` returns the pool obtained by calling
+    `AddCert` on the accepted blocks' certificates in order, and `ok` = "some block was accepted". -/
+theorem appendPEM_is_addCerts (s : Pool) (bs : List Block) :
+    appendCertsFromPEM s bs = ((pemCerts bs).foldl addCert s, !(pemCerts bs).isEmpty) :=
+  appendPEM_eq_addCerts bs s
+
+/-- on a nil receiver the call panics iff some block is accepted (AddCert dereferences the receiver); otherwise it
+    returns false and there is still no pool. -/
+theorem appendPEM_nil (bs : List Block) :
+    appendCertsFromPEMOpt none bs = if (pemCerts bs).isEmpty then .ok (none, false) else .panic := by
+  unfold appendCertsFromPEMOpt
+  simp only [any_accepted]
+  cases (pemCerts bs).isEmpty <;> rfl
+
+/-- skipped blocks are invisible: deleting them from the input changes neither the pool nor the result. -/
+theorem appendPEM_skips (s : Pool) (bs : List Block) :
+    appendCertsFromPEM s bs = appendCertsFromPEM s (bs.filter (fun b => b.accepted.isSome)) := by
+  rw [appendPEM_is_addCerts, appendPEM_is_addCerts]
+  have : pemCerts (bs.filter (fun b => b.accepted.isSome)) = pemCerts bs := by
+    unfold pemCerts
+    induction bs with
+    | nil => rfl
+    | cons b bs ih =>
+      cases hb : b.accepted with
+      | none => simp [hb, ih]
+      | some c => simp [hb, ih]
+  rw [this]
+
+/-- AddCert(nil) panics whatever the receiver is (the test precedes every dereference), and a history containing it panics. -/
+theorem addCert_nil_panics (s : Option Pool) : addCertOpt s none = .panic := rfl
+
+theorem step_addCert_nil (regs : Regs) (r : Nat) : step regs (.add r none) = .panic := rfl
+
+/-- the `ok` results of the AppendCertsFromPEM calls of a history depend on the block lists only -/
+def opOut : Op → Option Bool
+  | .pem _ bs => some (!(pemCerts bs).isEmpty)
+  | _ => none
+
+def pemOuts : List Op → List Bool
+  | [] => []
+  | op :: ops => (match opOut op with | some b => [b] | none => []) ++ pemOuts ops
+
+theorem step_out (regs regs' : Regs) (op : Op) (o : Option Bool) (h : step regs op = .ok (regs', o)) : o = opOut op := by
+  cases op with
+  | add r c =>
+    simp only [step] at h
+    split at h <;> simp only [Res.ok.injEq, Prod.mk.injEq, reduceCtorEq] at h
+    rw [← h.2]; rfl
+  | pem r bs =>
+    simp only [step] at h
+    cases hr : regs r with
+    | none =>
+      rw [hr, appendPEM_nil] at h
+      cases he : (pemCerts bs).isEmpty <;> simp only [he, Bool.false_eq_true, if_false, if_true, reduceCtorEq] at h
+      simp only [Res.ok.injEq, Prod.mk.injEq] at h
+      rw [← h.2]; simp [opOut, he]
+    | some p =>
+      simp only [hr, appendCertsFromPEMOpt, appendPEM_is_addCerts, Res.ok.injEq, Prod.mk.injEq] at h
+      rw [← h.2]; rfl
+  | sum d a b =>
+    simp only [step, Res.ok.injEq, Prod.mk.injEq] at h
+    rw [← h.2]; rfl
+
+/-- every AppendCertsFromPEM call of ANY non-panicking history reports exactly "some block was accepted". -/
+theorem run_outs (ops : List Op) (regs regs' : Regs) (outs : List Bool) (h : run regs ops = .ok (regs', outs)) :
+    outs = pemOuts ops := by
+  induction ops generalizing regs regs' outs with
+  | nil => simp only [run, Res.ok.injEq, Prod.mk.injEq] at h; rw [← h.2]; rfl
+  | cons op ops ih =>
+    simp only [run] at h
+    cases hs : step regs op with
+    | err => simp [hs] at h
+    | panic => simp [hs] at h
+    | ok v =>
+      obtain ⟨r1, o⟩ := v
+      simp only [hs] at h
+      cases hr : run r1 ops with
+      | err => simp [hr] at h
+      | panic => simp [hr] at h
+      | ok w =>
+        obtain ⟨r2, os⟩ := w
+        simp only [hr, Res.ok.injEq, Prod.mk.injEq] at h
+        rw [← h.2, ih r1 r2 os hr, step_out regs r1 op o hs]
+        rfl
+
+/-! ### all observers against the abstract ordered set, nil pools included -/
+
+/-- the abstract value of a pool variable: the fingerprint-keyed ordered set of its add history (empty for nil) -/
+def oset (l : Option (List Cert)) : List Cert := dedupFp (histOf l)
+
+/-- the abstract set operations: insertion is `specAdd` (append unless the fingerprint is present), the union of
+    `Sum` inserts the elements of the argument in order. -/
+theorem oset_add (l : List Cert) (c : Cert) : oset (some (l ++ [c])) = specAdd (oset (some l)) c := by
+  simp only [oset, histOf, dedupFp_append]; rfl
+
+theorem oset_union (l m : Option (List Cert)) :
+    oset (some (histOf l ++ histOf m)) = (oset m).foldl specAdd (oset l) := by
+  simp only [oset, histOf, dedupFp_append, foldl_specAdd_dedup]
+
+theorem oset_nodup (l : Option (List Cert)) : (fps (oset l)).Nodup := dedupFp_nodup _
+
+theorem contains_eq (p : Option Pool) (l : Option (List Cert)) (h : Agrees p l) (c : Cert) :
+    contains p c = decide (c.fp ∈ fps (oset l)) := by
+  cases p with
+  | none =>
+    cases l with
+    | none => simp [contains, oset, histOf, dedupFp, fps]
+    | some l => exact h.elim
+  | some p =>
+    cases l with
+    | none => exact h.elim
+    | some l =>
+      rw [Bool.eq_iff_iff, contains_spec p l h c, decide_eq_true_iff]
+      simp only [oset, histOf]
+      exact (dedupFp_mem_fps l c.fp).symm
+
+/-- OBSERVERS: for two pool variables that agree with their histories (nil ones included) `Size`, `Contains`,
+    `Covers`, `Certificates` and `Subjects` are the corresponding functions of the abstract ordered sets. -/
+theorem observers_agree (p q : Option Pool) (l m : Option (List Cert)) (hp : Agrees p l) (hq : Agrees q m) (c : Cert) :
+    size p = (oset l).length ∧
+    contains p c = decide (c.fp ∈ fps (oset l)) ∧
+    covers p q = (oset m).all (fun x => decide (x.fp ∈ fps (oset l))) ∧
+    (∀ x, p = some x → certificates x = oset l ∧ subjects x = (oset l).map (·.subject)) := by
+  refine ⟨?_, contains_eq p l hp c, ?_, ?_⟩
+  · cases p <;> cases l <;> simp only [Agrees] at hp
+    · simp [size, oset, histOf, dedupFp]
+    · simp [size, oset, histOf, hp.2]
+  · cases q with
+    | none =>
+      cases m with
+      | none => simp [covers, oset, histOf, dedupFp]
+      | some m => exact hq.elim
+    | some q =>
+      cases m with
+      | none => exact hq.elim
+      | some m =>
+        simp only [Agrees] at hq
+        simp only [covers, hq.2, oset, histOf]
+        congr 1
+        funext x
+        exact contains_eq p l hp x
+  · intro x hx
+    subst hx
+    cases l with
+    | none => exact hp.elim
+    | some l =>
+      simp only [Agrees] at hp
+      simp [certificates, subjects, oset, histOf, hp.2]
+
+/-- REFINEMENT OF THE OBSERVERS.  After ANY operation sequence that does not panic, for ANY two pool variables
+    `r`, `q` (equal or not, nil or not, results / receivers / arguments of earlier Sums alike) and any certificate:
+    every observer returns what the abstract ordered sets of the add histories say, and the AppendCertsFromPEM
+    results are `pemOuts`. -/
+theorem observers_refine (ops : List Op) (regs : Regs) (outs : List Bool) (h : run init ops = .ok (regs, outs)) :
+    ∃ A, histRun histInit ops = .ok A ∧ outs = pemOuts ops ∧ ∀ r q c,
+      size (regs r) = (oset (A r)).length ∧
+      contains (regs r) c = decide (c.fp ∈ fps (oset (A r))) ∧
+      covers (regs r) (regs q) = (oset (A q)).all (fun x => decide (x.fp ∈ fps (oset (A r)))) ∧
+      (∀ x, regs r = some x → certificates x = oset (A r) ∧ subjects x = (oset (A r)).map (·.subject)) := by
+  obtain ⟨A, e, ha⟩ := reachable_agrees ops regs outs h
+  exact ⟨A, e, run_outs ops init regs outs h, fun r q c => observers_agree _ _ _ _ (ha r) (ha q) c⟩
+
+/-- `Sum`: for ANY receiver and argument satisfying the invariant (nil allowed, the same pool allowed) the result
+    satisfies the invariant, holds the ordered union, covers both operands, and is covered by exactly the pools
+    that cover both. -/
+theorem sum_union (a b : Option Pool) :
+    Inv (sum a b) ∧ (sum a b).certs = (optCerts b).foldl specAdd (dedupFp (optCerts a)) := by
+  have := sum_spec a b
+  exact ⟨this.2, by rw [this.1, dedupFp_append]⟩
+
+/-- in `x.Sum(y)` the receiver's members keep their OBJECTS and POSITIONS (so indices into the receiver are valid in
+    the result); the argument's members with new fingerprints follow, in the argument's order. -/
+theorem sum_receiver_prefix (a : Pool) (b : Option Pool) (ha : Inv a) :
+    (sum (some a) b).certs = a.certs ++ (dedupFp (optCerts b)).filter (fun c => decide (c.fp ∉ fps a.certs)) := by
+  rw [(sum_union (some a) b).2, foldl_specAdd]
+  simp only [optCerts, dedupFp_of_nodup _ ha.nodup]
+
+/-- a nil receiver contributes nothing: the result is the argument, de-duplicated (a no-op on a pool satisfying Inv). -/
+theorem sum_nil_receiver (b : Pool) (hb : Inv b) : (sum none (some b)).certs = b.certs := by
+  rw [(sum_spec none (some b)).1]
+  simp only [optCerts, List.nil_append, dedupFp_of_nodup _ hb.nodup]
+
+/-! ### T1: facts read from x509/cert_pool.go on every run -/
+
+/-- the literals of the AppendCertsFromPEM `continue` test and of the AddCert(nil) panic -/
+theorem t1_pem_constants :
+    ZV.Generated.C08.pemBlockType = "CERTIFICATE" ∧ ZV.Generated.C08.pemBlockTypeOp = "!=" ∧
+    ZV.Generated.C08.pemHeaderOp = "!=" ∧ ZV.Generated.C08.pemHeaderBound = 0 ∧
+    ZV.Generated.C08.addCertNilPanic = "adding nil Certificate to CertPool" ∧
+    ZV.Generated.C08.shapeCounts = [1, 1, 1] := by decide
+
+/-- every guard (`if` / loop header / `break` / `continue`) of x509/cert_pool.go, in source order, is the one the
+    model mirrors: weakening, removing or adding a guard in the file changes the generated table and fails here. -/
+theorem t1_guards : ZV.Generated.C08.guards = [
+    ("findVerifiedParents", "if s == nil"),
+    ("findVerifiedParents", "if len(cert.AuthorityKeyId) > 0"),
+    ("findVerifiedParents", "if len(candidates) == 0"),
+    ("findVerifiedParents", "range candidates"),
+    ("findVerifiedParents", "if err == nil"),
+    ("Contains", "if s == nil"),
+    ("Covers", "if pool == nil"),
+    ("Covers", "range pool.certs"),
+    ("Covers", "if !s.Contains(c)"),
+    ("Size", "if s == nil"),
+    ("Sum", "if s != nil"),
+    ("Sum", "range s.certs"),
+    ("Sum", "if other != nil"),
+    ("Sum", "range other.certs"),
+    ("AddCert", "if cert == nil"),
+    ("AddCert", "if ok"),
+    ("AddCert", "if len(cert.SubjectKeyId) > 0"),
+    ("AppendCertsFromPEM", "for len(pemCerts) > 0"),
+    ("AppendCertsFromPEM", "if block == nil"),
+    ("AppendCertsFromPEM", "break"),
+    ("AppendCertsFromPEM", "if block.Type != \"CERTIFICATE\" || len(block.Headers) != 0"),
+    ("AppendCertsFromPEM", "continue"),
+    ("AppendCertsFromPEM", "if err != nil"),
+    ("AppendCertsFromPEM", "continue"),
+    ("Subjects", "range s.certs")] := by decide
+
+/-- statement counts per function (an inserted or deleted statement in a modelled function shows here) -/
+theorem t1_stmt_counts : ZV.Generated.C08.stmtCounts = [
+    ("NewCertPool", 2), ("cert", 2), ("findVerifiedParents", 21), ("Contains", 6), ("Covers", 10),
+    ("Certificates", 4), ("Size", 5), ("Sum", 13), ("AddCert", 18), ("AppendCertsFromPEM", 18), ("Subjects", 6)] := by decide
+
 /-! ### non-vacuity -/
+
+-- a reachable state with a nil variable (3), a Sum result (2) and PEM input with every kind of skipped block:
+-- the hypotheses of `observers_refine` / `run_outs` / `reachable_agrees` are satisfiable
+example :
+    let a : Cert := { uid := 0, fp := 1, subject := 1, issuer := 1, skid := 1, akid := 0 }
+    let b : Cert := { uid := 1, fp := 2, subject := 1, issuer := 1, skid := 0, akid := 1 }
+    let blocks : List Block := [{ typ := "X509 CRL", nHeaders := 0, parsed := some a }, { typ := "CERTIFICATE", nHeaders := 1, parsed := some a },
+      { typ := "CERTIFICATE", nHeaders := 0, parsed := none }, { typ := "CERTIFICATE", nHeaders := 0, parsed := some b }]
+    (run init [.add 0 (some a), .pem 1 blocks, .pem 3 (blocks.take 3), .sum 2 0 1]).map (fun x => (x.2, (x.1 2).map (fun p => p.certs.map (·.uid)), (x.1 3).isSome))
+      = .ok ([true, false], some [0, 1], false) := by decide
+
+-- `parents_sound`: the invariant holds for the empty pool, and a pool with one verified parent sets ValidSignature
+example : Inv newPool := inv_new
+example :
+    let r : Cert := { uid := 0, fp := 1, subject := 1, issuer := 1, skid := 1, akid := 0 }
+    let c : Cert := { uid := 1, fp := 2, subject := 2, issuer := 1, skid := 0, akid := 1 }
+    findVerifiedParents (fun _ _ => true) (some (addCert newPool r)) c false
+      = .ok { parents := [0], errCert := none, errNil := true, valid := true } := by decide
+
+-- `accepted_iff` / `skipped_iff`: a block that is accepted, and near misses that are not
+example : (Block.mk "CERTIFICATE" 0 (some ⟨0, 1, 1, 1, 0, 0⟩)).accepted = some ⟨0, 1, 1, 1, 0, 0⟩ := by decide
+example : (Block.mk "certificate" 0 (some ⟨0, 1, 1, 1, 0, 0⟩)).accepted = none ∧ (Block.mk "CERTIFICATE " 0 (some ⟨0, 1, 1, 1, 0, 0⟩)).accepted = none ∧
+    (Block.mk "CERTIFICATE" 2 (some ⟨0, 1, 1, 1, 0, 0⟩)).accepted = none := by decide
+
+-- AddCert(nil) in the middle of a history: the whole run panics
+example (c : Cert) : run init [.add 0 (some c), .add 0 none, .add 1 (some c)] = .panic := by
+  simp [run, step, addCertOpt, init]
+
 
 example : Agrees (init 0) (histInit 0) := agree_init 0
 
@@ -358,12 +647,12 @@ example :
     let a : Cert := { uid := 0, fp := 1, subject := 1, issuer := 1, skid := 1, akid := 0 }
     let a' : Cert := { uid := 6, fp := 1, subject := 1, issuer := 1, skid := 1, akid := 0 }
     let b : Cert := { uid := 1, fp := 2, subject := 1, issuer := 1, skid := 0, akid := 1 }
-    (histRun histInit [.add 0 a, .add 0 b, .add 1 a', .sum 2 1 0]).map (fun A => (A 2).map (fun l => (dedupFp l).map (·.uid)))
+    (histRun histInit [.add 0 (some a), .add 0 (some b), .add 1 (some a'), .sum 2 1 0]).map (fun A => (A 2).map (fun l => (dedupFp l).map (·.uid)))
       = .ok (some [6, 1]) := by decide
 
 -- Sum into variable 2, then mutate the RESULT: receiver 0 and argument 1 keep their pools
 example (regs' : Regs) (outs : List Bool) (c : Cert)
-    (h : run init [.sum 2 0 1, .add 2 c] = .ok (regs', outs)) : regs' 0 = init 0 ∧ regs' 1 = init 1 :=
+    (h : run init [.sum 2 0 1, .add 2 (some c)] = .ok (regs', outs)) : regs' 0 = init 0 ∧ regs' 1 = init 1 :=
   ⟨run_frame _ _ _ _ h 0 (by simp [Op.dst]), run_frame _ _ _ _ h 1 (by simp [Op.dst])⟩
 
 end ZV.C08
